@@ -16,7 +16,8 @@ from vf.sem import pyeval
 ID = "C19"
 RULE = (
     "Typed expression grammar (int / seq-of-int / bool) rendered as source text: the five shortcut names as calls "
-    "with 0-3 positional arguments, as methods (x.Sum()), as attribute and bare-name references, nested in each "
+    "with 0-3 positional arguments, as methods (x.Sum()), as attribute and bare-name references, one-argument calls of 30 "
+    "look-alike names (pieces of the shortcut names, other case, longer names), nested in each "
     "other's argument and inside Select/Where lambdas; integer sequences incl. empty and negative. "
     "Non-trivial = at least one 1-argument shortcut call (a fold is produced) AND (a shortcut nested inside "
     "another shortcut's argument, or inside a lambda, or a must-stay form present). Distinct by source text + data."
@@ -28,9 +29,12 @@ ASSUMPTIONS = [
     "Python's own compile/eval is the evaluator.",
 ]
 BUDGET = {"quick": (4, 1500), "thorough": (16, 12000)}
-EXHAUSTIVE_NOTE = "name(5) x arity(0..3) x 12 syntactic positions x 3 sibling shortcuts, fully enumerated"
+EXHAUSTIVE_NOTE = "name(5) x arity(0..3) x 14 syntactic positions (incl. the callee of a call) x 3 sibling shortcuts, fully enumerated"
 
 NAMES = ["len", "Count", "Sum", "Max", "Min"]
+# one-argument functions whose names merely look like a shortcut (pieces, other case, longer): they must stay as they are
+LOOKALIKE = ["e", "n", "t", "l", "C", "Co", "unt", "le", "en", "Su", "um", "Ma", "ax", "Mi", "S", "M", "length", "count", "sum", "max", "min",
+             "Len", "SUM", "Sums", "Counts", "lenCount", "Count2", "_Sum", "Min_", "xaM"]
 
 
 def _spec(name, s):
@@ -90,6 +94,8 @@ class SeqM(pyeval.Seq):
 
 def _env(data):
     env = {n: _mkfn(n) for n in NAMES}
+    for i, n in enumerate(LOOKALIKE):
+        env[n] = (lambda i: lambda s_: 7000 + 10 * i + len(list(s_)))(i)
     env["keep"] = lambda f, v: v
     env["kw"] = lambda v, w=0: v
     env["o"] = _O()
@@ -128,7 +134,13 @@ def _expr(draw, ty, depth, ivars):
         b = draw(_expr("I", depth - 1, ivars))
         return f"({a} {draw(st.sampled_from(['>', '<', '==', '>=']))} {b})"
     # int
-    k = draw(st.integers(0, 2 if leaf else 15))
+    k = draw(st.integers(0, 2 if leaf else 19))
+    if k in (18, 19):  # shortcuts inside the CALLEE of a call
+        name = draw(st.sampled_from(NAMES))
+        arg = draw(_expr("S", depth - 1, ivars))
+        return draw(st.sampled_from([f"(lambda q: {name}(q))({arg})", f"[lambda q: {name}(q) + 1, lambda q: 0][0]({arg})", f"keep(0, lambda q: q)({name}({arg}))"]))
+    if k in (16, 17):  # a one-argument call of a function whose name only resembles a shortcut
+        return f"{draw(st.sampled_from(LOOKALIKE))}({draw(_expr('S', depth - 1, ivars))})"
     if k == 12:
         return f"kw(w={draw(_expr('I', depth - 1, ivars))}, v={draw(_expr('I', depth - 1, ivars))})"
     if k == 13:
@@ -197,6 +209,8 @@ def exhaustive(tier):
         "kw(w=1, v={X})",
         "{'a': {X}}['a']",
         "[*s1, {X}][0]",
+        "(lambda z: {X})(1)",
+        "[lambda z: {X}][0](1)",
     ]
     argsets = {0: "", 1: "{A}", 2: "{A}, n0", 3: "{A}, n0, 1"}
     inner = ["s0", "Select(s1, lambda v: Sum(s0))", "[Max(s0), len(s1)]"]
@@ -287,6 +301,8 @@ def check(case) -> Result:
         r.labels.append("fold:" + c.func.id)
     if other_arity:
         r.labels.append("must-stay:arity")
+    if any(isinstance(c.func, ast.Name) and c.func.id in LOOKALIKE for c in calls):
+        r.labels.append("must-stay:look-alike-name")
     if meth:
         r.labels.append("must-stay:method")
     if n_bare > 0:
